@@ -8,7 +8,7 @@ From Verif Require Import Lanes Common Values Floats Scan Numbers Equality Token
 Extraction Blacklist String List Nat Int.
 Set Extraction AccessOpaque.
 Extraction "model.ml"
-  cfg00 cfg10 cfg01 cfg11 mk_opts run_doc
+  cfg00 cfg10 cfg01 cfg11 mk_opts run_doc run_doc_x
   skip_ws find_quote scan_digits scan_identifier split_identifier lf_index
   parse_int64 parse_double ratio_gcd le_val eight_digits_check eight_digits_value string_get decode
   equal hash_value hash_cache has_duplicates compare_nodes isort no_ext_equal no_ext_hash
